@@ -299,7 +299,7 @@ gen_clip (gen_t *g, int slot, int maybe_null)
     int w = g->s[slot].w > 0 ? g->s[slot].w : 10, h = g->s[slot].h > 0 ? g->s[slot].h : 10;
     a[n++] = slot;
     if (maybe_null && rng_chance (R, 1, 3)) cnt = -1;
-    else if (rng_chance (R, 1, 8)) cnt = (int)rng_range (R, 17, 20);     /* more boxes than the 16<->32 conversion keeps on its stack */
+    else if (rng_chance (R, 1, 5)) cnt = (int)rng_range (R, 17, 20);     /* more boxes than the 16<->32 conversion keeps on its stack */
     else cnt = (int)rng_range (R, 0, 4);
     a[n++] = cnt;
     for (i = 0; i < cnt; i++)
@@ -307,7 +307,13 @@ gen_clip (gen_t *g, int slot, int maybe_null)
 	int64_t x1 = rng_range (R, -3, w), y1 = rng_range (R, -3, h);
 	a[n++] = x1; a[n++] = y1; a[n++] = x1 + rng_range (R, 1, w + 3); a[n++] = y1 + rng_range (R, 1, h + 3);
     }
-    sc_addv (g->sc, rng_chance (R, 1, 3) ? MOP_SET_CLIP16 : MOP_SET_CLIP32, n, a);
+    {
+	int k16 = rng_chance (R, 1, 3);
+	/* the 16-bit entry point converts through a temporary array once there are more than
+	 * 16 rectangles: where faults are being injected at all, aim one at that call */
+	if (k16 && cnt > 16 && g->fault_pct && rng_chance (R, 1, 2)) { a[0] = rng_range (R, 1, 2); a[1] = 1; a[2] = 0; }
+	sc_addv (g->sc, k16 ? MOP_SET_CLIP16 : MOP_SET_CLIP32, n, a);
+    }
 }
 
 void
